@@ -33,6 +33,9 @@ R26e  who may write, and when: every write-capable call in src/sqlfluff and
       ``Linter.lint_paths`` only under its ``apply_fixes`` parameter
       (default False).
 
+Also read as the same facts (QUIET sweep): ``os.path.split`` kept whole and indexed; the file
+descriptor or ``st_mode`` through a local; ``fix_string()``'s result kept whole and indexed.
+
 Accepted idioms are the ones listed above; anything else in the replacing
 function is reported (the function is 40 lines whose every call matters).
 """
@@ -42,6 +45,7 @@ from __future__ import annotations
 import ast
 
 from ..cfg import Branch, atoms, cfg_of, origins
+from ..idioms import component_origins, conditions_at
 from ..index import AnalysisError, arg_of, call_name, calls_in, const, enclosing_function, kwarg, last_attr, module_of, norm, short, walk_local
 from ..iohelpers import (
     LINTED_FILE, LINTER, Writer, all_calls, ancestors, branch_node, fq, in_block, inside,
@@ -116,8 +120,8 @@ def _r26a(chk, W) -> None:
     d = kwarg(T, "dir")
     ok_dir = False
     if d is not None:
-        os_ = origins(cfg, d, Wi) if isinstance(d, ast.Name) else None
-        leaves = [(o.expr, o.path, o.stmt) for o in os_] if os_ is not None else [(d, (), Wi)]
+        os_ = component_origins(cfg, d, Wi) if isinstance(d, (ast.Name, ast.Subscript)) else None  # `parts = os.path.split(p); parts[0]` too
+        leaves = [(o.expr, tuple(o.path), o.stmt) for o in os_] if os_ is not None else [(d, (), Wi)]
         ok_dir = bool(leaves) and all(_is_dir_of(W, e, p, at) for e, p, at in leaves)
     chk.require(ok_dir, "R26a", T, "temp file is not created in the directory of the output path (dir= must derive from dirname/split/parent of the output parameter); "
                 "a temp on another filesystem makes the rename a non-atomic copy", detail="temp dir = dirname(output)")
@@ -133,7 +137,7 @@ def _r26a(chk, W) -> None:
             writes.append(c)
         elif last_attr(c) == "flush" and isinstance(c.func, ast.Attribute) and W.is_tmp(c.func.value, st):
             flushes.append(c)
-        elif fq(c) == "os.fsync" and c.args and isinstance(c.args[0], ast.Call) and last_attr(c.args[0]) == "fileno" and W.is_tmp(c.args[0], st):
+        elif fq(c) == "os.fsync" and c.args and _is_tmp_fileno(W, cfg, c.args[0], st):
             syncs.append(c)
     chk.count("R26a.protocol_calls", len(writes) + len(flushes) + len(syncs))
     sw, sf, sy = [cfg.stmt_of(c) for c in writes], [cfg.stmt_of(c) for c in flushes], [cfg.stmt_of(c) for c in syncs]
@@ -179,6 +183,16 @@ def _r26a(chk, W) -> None:
             chk.require(not mentions, "R26a", c, "a call after the rename uses the destination path", detail=f"post-rename use {short(c, 60)}")
     chk.count("R26a.write_calls_in_replacing_function", n_w)
     chk.floor("R26a.write_calls_in_replacing_function", 2)
+
+
+def _is_tmp_fileno(W, cfg, e, at) -> bool:
+    """``tmp.fileno()`` in place, or a local that can only hold it."""
+    if isinstance(e, ast.Call):
+        return last_attr(e) == "fileno" and W.is_tmp(e, at)
+    if isinstance(e, ast.Name):
+        os_ = origins(cfg, e, at)
+        return bool(os_) and all(o.kind == "expr" and not o.path and isinstance(o.expr, ast.Call) and last_attr(o.expr) == "fileno" and W.is_tmp(o.expr, o.stmt) for o in os_)
+    return False
 
 
 def _is_dir_of(W, e, path, at) -> bool:
@@ -310,7 +324,9 @@ def _r26c(chk, W) -> None:
                     "a path reaches the rename with a known mode but without applying it", detail="chmod on every path with known mode")
 
 
-def _from_stat(W, e, at) -> bool:
+def _from_stat(W, e, at, _depth: int = 0) -> bool:
+    """Does ``e`` read ``os.stat(<input path>).st_mode`` -- in place, or through locals each of
+    whose possible values (other than None) reads it?"""
     for n in ast.walk(e):
         if isinstance(n, ast.Attribute) and n.attr == "st_mode":
             b = n.value
@@ -320,6 +336,12 @@ def _from_stat(W, e, at) -> bool:
                         return True
             elif isinstance(b, ast.Call) and b in W.stats and W.from_param(b.args[0] if b.args else None, at, W.in_param):
                 return True
+    if _depth < 3:
+        for n in ast.walk(e):
+            if isinstance(n, ast.Name) and isinstance(n.ctx, ast.Load) and n.id not in module_of(W.fn).imports:
+                os_ = [o for o in origins(W.cfg, n, at) if not (o.kind == "expr" and isinstance(o.expr, ast.Constant) and o.expr.value is None)]
+                if os_ and all(o.kind == "expr" and not o.path and isinstance(o.expr, ast.AST) and o.expr is not e and _from_stat(W, o.expr, o.stmt, _depth + 1) for o in os_):
+                    return True
     return False
 
 
@@ -465,10 +487,10 @@ def _r26e(chk, repo, W) -> None:
         cfg = cfg_of(pf)
         st = cfg.stmt_of(call)
         ok = False
-        for e, pol in cfg.conditions(st):
-            if pol and isinstance(e, ast.Name):
-                os_ = origins(cfg, e, st)
-                if os_ and all(isinstance(o.expr, ast.Call) and last_attr(o.expr) == "fix_string" and o.path == (1,) for o in os_):
+        for e, pol in conditions_at(cfg, st):
+            if pol and isinstance(e, (ast.Name, ast.Subscript)):
+                os_ = component_origins(cfg, e, cfg.stmt_of(e) or st)
+                if os_ and all(isinstance(o.expr, ast.Call) and last_attr(o.expr) == "fix_string" and tuple(o.path) == (1,) for o in os_):
                     ok = True
         chk.require(ok, "R26e", call, "the file is rewritten without testing fix_string()'s change flag", detail="write gated on fix_string() change flag")
     # who may call the persisting method
@@ -519,6 +541,130 @@ VARIANTS = [
             "                fname = self.path\n                # If there is a suffix specified, then use it.s\n                if suffix:\n                    root, ext = os.path.splitext(fname)\n                    fname = root + suffix + ext\n",
             "                fname = self.path\n                if suffix:\n                    parts = os.path.splitext(self.path)\n                    fname = parts[0] + suffix + parts[1]\n", "QUIET", None,
             "suffix name built from an un-unpacked splitext result"),
+    # behaviour-preserving refactors: must stay quiet (sweep)
+    Variant(
+        'quiet-mode-read-inside-the-try', LF,
+        '        mode = None\n        try:\n            status = os.stat(input_path)\n        except FileNotFoundError:\n            pass\n        else:\n            if stat.S_ISREG(status.st_mode):\n                mode = stat.S_IMODE(status.st_mode)\n',
+        '        mode = None\n        try:\n            status = os.stat(input_path)\n            if stat.S_ISREG(status.st_mode):\n                mode = stat.S_IMODE(status.st_mode)\n        except FileNotFoundError:\n            pass\n',
+        "QUIET", None, 'try/except/else folded into the try body (S_ISREG/S_IMODE cannot raise FileNotFoundError)',
+    ),
+    Variant(
+        'quiet-mode-via-st-mode-local', LF,
+        '        mode = None\n        try:\n            status = os.stat(input_path)\n        except FileNotFoundError:\n            pass\n        else:\n            if stat.S_ISREG(status.st_mode):\n                mode = stat.S_IMODE(status.st_mode)\n',
+        '        mode = None\n        try:\n            st_mode = os.stat(input_path).st_mode\n        except FileNotFoundError:\n            st_mode = None\n        if st_mode is not None and stat.S_ISREG(st_mode):\n            mode = stat.S_IMODE(st_mode)\n',
+        "QUIET", None, 'st_mode read into a local, None when the original is missing',
+    ),
+    Variant(
+        'quiet-split-result-indexed', LF,
+        '        dirname, basename = os.path.split(output_path)\n',
+        '        head_tail = os.path.split(output_path)\n        dirname = head_tail[0]\n        basename = head_tail[1]\n',
+        "QUIET", None, 'os.path.split result kept whole and indexed',
+    ),
+    Variant(
+        'quiet-fsync-through-fd-local', LF,
+        '                os.fsync(tmp.fileno())\n',
+        '                fd = tmp.fileno()\n                os.fsync(fd)\n',
+        "QUIET", None, 'file descriptor through a local',
+    ),
+    Variant(
+        'quiet-move-keyword-arguments', LF,
+        '            shutil.move(tmp_name, output_path)\n',
+        '            shutil.move(src=tmp_name, dst=output_path)\n',
+        "QUIET", None, 'shutil.move arguments by keyword',
+    ),
+    Variant(
+        'quiet-chmod-under-else', LF,
+        '            if mode is not None:\n                os.chmod(tmp_name, mode)\n',
+        '            if mode is None:\n                pass\n            else:\n                os.chmod(tmp_name, mode)\n',
+        "QUIET", None, 'mode-known test inverted, chmod in the else arm',
+    ),
+    Variant(
+        'quiet-cleanup-remove-in-try', LF,
+        '            if tmp_name is not None and os.path.exists(tmp_name):\n                os.remove(tmp_name)\n            raise\n',
+        '            if tmp_name is not None:\n                try:\n                    os.remove(tmp_name)\n                except FileNotFoundError:\n                    pass\n            raise\n',
+        "QUIET", None, 'exists() test replaced by remove() in try/except FileNotFoundError',
+    ),
+    Variant(
+        'quiet-cleanup-truthiness-of-name', LF,
+        '            if tmp_name is not None and os.path.exists(tmp_name):\n                os.remove(tmp_name)\n            raise\n',
+        '            if tmp_name and os.path.exists(tmp_name):\n                os.remove(tmp_name)\n            raise\n',
+        "QUIET", None, '`is not None` spelled as truthiness (a temp name is never empty)',
+    ),
+    Variant(
+        'quiet-bare-except', LF,
+        '        except BaseException:\n',
+        '        except:  # noqa: E722\n',
+        "QUIET", None, 'bare except is the same catch-all',
+    ),
+    Variant(
+        'quiet-temp-mode-positional', LF,
+        '            with tempfile.NamedTemporaryFile(\n                mode="w",\n                encoding=encoding,\n',
+        '            with tempfile.NamedTemporaryFile(\n                "w",\n                encoding=encoding,\n',
+        "QUIET", None, 'mode passed positionally',
+    ),
+    Variant(
+        'quiet-write-on-wrapper', LF,
+        '                tmp.file.write(write_buff)\n',
+        '                tmp.write(write_buff)\n',
+        "QUIET", None, 'write on the NamedTemporaryFile wrapper (delegates to .file)',
+    ),
+    Variant(
+        'quiet-persist-result-indexed', LF,
+        '            write_buff, success = self.fix_string()\n\n            if success:\n',
+        '            fixed = self.fix_string()\n            write_buff = fixed[0]\n            success = fixed[1]\n\n            if success:\n',
+        "QUIET", None, 'fix_string() result kept whole and indexed',
+    ),
+    Variant(
+        'quiet-output-name-built-unconditionally', LF,
+        '                fname = self.path\n                # If there is a suffix specified, then use it.s\n                if suffix:\n                    root, ext = os.path.splitext(fname)\n                    fname = root + suffix + ext\n',
+        '                root, ext = os.path.splitext(self.path)\n                fname = root + suffix + ext\n',
+        "QUIET", None, "root + '' + ext is the original path: the name can be built unconditionally",
+    ),
+    Variant(
+        'quiet-output-name-conditional-expression', LF,
+        '                fname = self.path\n                # If there is a suffix specified, then use it.s\n                if suffix:\n                    root, ext = os.path.splitext(fname)\n                    fname = root + suffix + ext\n',
+        '                root, ext = os.path.splitext(self.path)\n                fname = root + suffix + ext if suffix else self.path\n',
+        "QUIET", None, 'if statement as a conditional expression',
+    ),
+    Variant(
+        'quiet-output-name-f-string', LF,
+        '                fname = self.path\n                # If there is a suffix specified, then use it.s\n                if suffix:\n                    root, ext = os.path.splitext(fname)\n                    fname = root + suffix + ext\n',
+        '                fname = self.path\n                if suffix:\n                    root, ext = os.path.splitext(self.path)\n                    fname = f"{root}{suffix}{ext}"\n',
+        "QUIET", None, 'concatenation as an f-string',
+    ),
+    Variant(
+        'quiet-replace-call-keyword-arguments', LF,
+        '                self._safe_create_replace_file(\n                    self.path, fname, write_buff, self.encoding\n                )\n',
+        '                self._safe_create_replace_file(\n                    input_path=self.path,\n                    output_path=fname,\n                    write_buff=write_buff,\n                    encoding=self.encoding,\n                )\n',
+        "QUIET", None, 'replacing function called with keyword arguments',
+    ),
+    Variant("quiet-temp-name-local-renamed", LF, "tmp_name", "staged_path", "QUIET", None, "temp-name local renamed everywhere", 7),
+    Variant("quiet-input-path-parameter-renamed", LF, "input_path", "original_path", "QUIET", None, "positional parameter renamed (all callers pass it positionally)", 2),
+    # breaking twins of the spellings accepted above
+    Variant(
+        'split-result-indexed-takes-the-basename', LF,
+        '        dirname, basename = os.path.split(output_path)\n',
+        '        head_tail = os.path.split(output_path)\n        dirname = head_tail[1]\n        basename = head_tail[1]\n',
+        'R26a', None, 'breaking twin of the indexed-split spelling',
+    ),
+    Variant(
+        'fsync-of-another-descriptor', LF,
+        '                os.fsync(tmp.fileno())\n',
+        '                fd = 1\n                os.fsync(fd)\n',
+        'R26a', None, 'breaking twin of the fd-in-a-local spelling',
+    ),
+    Variant(
+        'mode-local-read-from-output-path', LF,
+        '        mode = None\n        try:\n            status = os.stat(input_path)\n        except FileNotFoundError:\n            pass\n        else:\n            if stat.S_ISREG(status.st_mode):\n                mode = stat.S_IMODE(status.st_mode)\n',
+        '        mode = None\n        try:\n            st_mode = os.stat(output_path).st_mode\n        except FileNotFoundError:\n            st_mode = None\n        if st_mode is not None and stat.S_ISREG(st_mode):\n            mode = stat.S_IMODE(st_mode)\n',
+        'R26c', None, 'breaking twin of the st_mode-in-a-local spelling',
+    ),
+    Variant(
+        'persist-result-indexed-tests-the-text', LF,
+        '            write_buff, success = self.fix_string()\n\n            if success:\n',
+        '            fixed = self.fix_string()\n            write_buff = fixed[0]\n            success = bool(fixed[0])\n\n            if success:\n',
+        'R26e', None, 'breaking twin of the indexed-result spelling: the flag is the fixed text, not the change flag',
+    ),
     Variant("temp-in-system-tmpdir", LF, "                dir=dirname,\n", "", "R26a", "_safe_create_replace_file"),
     Variant("temp-deleted-on-close", LF, "                delete=False,\n", "                delete=True,\n", "R26a", "_safe_create_replace_file"),
     Variant("flush-dropped", LF, "                tmp.flush()\n", "", "R26a", "_safe_create_replace_file"),
